@@ -183,7 +183,7 @@ def make(isa, parser, variants, lone_variants, layouts, render, line_ok, comment
         "pairs_quick": {"fn": pairs_quick, "tiers": ("quick",), "bound": "all ordered pairs of %d operand variants with one mnemonic" % NV, "budget": {"quick": 170}, "shards": 16},
         "files3": {"fn": files3, "tiers": ("quick",), "bound": "all 3-line files over %d line kinds x start_line {0,40}" % NK, "budget": {"quick": 170}, "shards": NK},
         "pairs": {"fn": pairs, "tiers": ("thorough",), "bound": "all ordered pairs of %d operand variants (every register width/class, immediates decimal/hex/negative/64-bit, every base/index/displacement/scale memory shape ...) with 2 mnemonics" % NV,
-                  "budget": {"quick": 170, "thorough": 600}, "shards": 16},
+                  "budget": {"quick": 170, "thorough": 1200}, "shards": 32},
         "layouts_counts": {"fn": layouts_counts, "bound": "0-4 operands over %d representative variants x %d layouts (tabs, spaces around separators, trailing comment) x 2 mnemonics" % (NS, NL), "budget": {"quick": 170, "thorough": 600}, "shards": 15},
         "lone": {"fn": lone, "bound": "%d single-operand variants (labels / identifiers ...) x layouts" % NL1, "budget": {"quick": 120, "thorough": 300}},
         "files": {"fn": files, "tiers": ("thorough",), "bound": "all 4-line files over %d line kinds (blank, whitespace-only, comment, label, label+comment, directive, instruction with/without comment) x start_line {0,40}" % NK, "budget": {"quick": 170, "thorough": 600}, "shards": NK},
